@@ -66,6 +66,7 @@ def fetchSubseq (a : Ascii) (ssi : Ssi) (sq : Sq) (source : Bytes) (start end_ :
     let sq := sq.growTo nres.toNat
     let (a, sq, st, n) := readNres a sq nskip.toNat nres.toNat
     if st == .fault then (a, sq, .fault) else
+    if st == .eformat then (a, sq, .eformat) else      -- illegal character in the data: seebuf has set the message (50dd524)
     if st != .ok || (n : Int) < nres then (a.raise, sq, .einconceivable) else
     let nm := source ++ #[47] ++ decBytes start ++ #[45] ++ decBytes end_
     (a, { sq with start := start, end_ := end_, C := 0, W := sq.n, L := if len > 0 then len else -1, name := nm, source := source }, .ok)
